@@ -136,6 +136,8 @@ fn spawn_session(exe: &Path, o: &DriveOpts, idx: u64) -> std::io::Result<Child> 
     c.arg("session")
         .arg("--corpus")
         .arg(o.out.join("corpus.json"))
+        .arg("--directed")
+        .arg(o.out.join("directed.json"))
         .arg("--root")
         .arg(o.seed.to_string())
         .arg("--idx")
@@ -181,6 +183,11 @@ pub fn drive(o: &DriveOpts) -> Result<DriveSummary, String> {
     std::fs::write(
         o.out.join("corpus.json"),
         serde_json::to_string(&corpus).map_err(|e| e.to_string())?,
+    )
+    .map_err(|e| e.to_string())?;
+    std::fs::write(
+        o.out.join("directed.json"),
+        serde_json::to_string(&dir).map_err(|e| e.to_string())?,
     )
     .map_err(|e| e.to_string())?;
     let pool = Pool {
@@ -585,6 +592,8 @@ fn attribute_crash(exe: &Path, o: &DriveOpts, idx: u64, pool: &Pool) -> Option<(
     c.arg("session")
         .arg("--corpus")
         .arg(o.out.join("corpus.json"))
+        .arg("--directed")
+        .arg(o.out.join("directed.json"))
         .arg("--root")
         .arg(o.seed.to_string())
         .arg("--idx")
